@@ -2041,9 +2041,11 @@ class AstEval:
                     raise TypeError(f"got multiple values for keyword argument '{sorted(dup_keys)[0]}'")
                 kwargs.update(mapping)
             else:
+                # as in python the value is evaluated before a duplicate (from an earlier **mapping) is reported
+                kw_val = await self.aeval(kw_arg.value)
                 if kw_arg.arg in kwargs:
                     raise TypeError(f"got multiple values for keyword argument '{kw_arg.arg}'")
-                kwargs[kw_arg.arg] = await self.aeval(kw_arg.value)
+                kwargs[kw_arg.arg] = kw_val
         #
         # try to deduce function name, although this only works in simple cases
         #
